@@ -198,7 +198,11 @@ func zzC07(nOut int, nCoins int, outKinds int) {
 	if atx.ChangeIndex >= 0 {
 		ch := tx.TxOut[atx.ChangeIndex]
 		verifrt.Assert(ch.Value > 0, "c07-no-zero-change")
-		verifrt.Assert(!txrules.IsDustOutput(ch, txrules.DefaultRelayFeePerKb), "c07-no-dust-change")
+		// the network's rule (btcd mempool policy), stated independently of
+		// the wallet's own txrules helper: at the default relay fee of 1000
+		// sat/kvB an output is dust iff its value is below GetDustThreshold
+		verifrt.Assert(ch.Value >= mempool.GetDustThreshold(ch), "c07-no-dust-change")
+		verifrt.Assert(!txrules.IsDustOutput(ch, txrules.DefaultRelayFeePerKb), "c07-no-dust-change-by-the-wallets-own-rule")
 		verifrt.Reach("with-change")
 	} else {
 		verifrt.Reach("without-change")
